@@ -115,7 +115,7 @@ func C06_paths() {
 		return
 	}
 	k := sym.Choice("failAt", len(calls))
-	group := sym.Choice("group", 3) // 0: plain error, 1: Errors of 1, 2: Errors of 2
+	group := 2 * sym.Choice("group", 2) // 0: plain error, 2: Errors group of 2 members
 	plan.at, plan.count, plan.group = k, 0, group
 	res := kitRoot(q).ResolveString(doc, "", nil)
 	sym.Observe("res", res)
